@@ -151,7 +151,33 @@ I 2
 F 2
 `}
 
-var corpus = []script{relabelledCommit, relabelledChecked, probesA, probesB, oversizedOnly}
+// lateValidator: the schedule class "one validator is last within a single view". At height 1 (primary 1,
+// view 0) every payload reaches everybody but `victim` first: the others prepare, sign and commit. Then the
+// victim receives ALL their Commits (stored unchecked: it has no header yet, dbft.go:630-642), then the
+// PrepareResponses, and the PrepareRequest last. On that one delivery it answers, counts M preparations,
+// signs and calls checkCommit holding N > M Commits of the view: getBlockWitness must take exactly M of
+// them, in validator order (consensus.go:666-696, the `j < m` cap; seeded C19-m7 removes it).
+func lateValidator(n, victim int, tail string) script {
+	var b strings.Builder
+	for j := 0; j < n; j++ {
+		if j != victim && j != 1 {
+			fmt.Fprintf(&b, "D %d PR 1 0\n", j)
+		}
+	}
+	for _, typ := range []string{"PS", "CM"} {
+		for j := 0; j < n; j++ {
+			if j != victim {
+				fmt.Fprintf(&b, "D %d %s * 0\n", j, typ)
+			}
+		}
+	}
+	fmt.Fprintf(&b, "D %d CM * 0\nD %d PS * 0\nD %d PR 1 0\n", victim, victim, victim)
+	b.WriteString(tail)
+	return script{name: fmt.Sprintf("late-validator-%d-of-%d", victim, n), n: n, steps: b.String()}
+}
+
+var corpus = []script{relabelledCommit, relabelledChecked, probesA, probesB, oversizedOnly,
+	lateValidator(4, 3, "D * * * *\nF 2\n"), lateValidator(7, 0, "D * * * *\nF 2\n")}
 
 func match(pat, s string) bool { return pat == "*" || pat == s }
 
